@@ -2,7 +2,7 @@ CONSTANTS
   Cap = 1
   MaxBytes = 2
   MaxClock = 1
-  Timeouts = {1}
+  Timeouts = {0, 1}
   MaxIntr = 2
   IntrMode = "remainder"
 SPECIFICATION FairSpec
